@@ -17,72 +17,81 @@ def cfg_attr(fm, cfg, name):
     return fm.norm(o.attrs.get(name))
 
 
+def candidate_source(fm, L):
+    """Decompose the list a per-file loop iterates into sorted(<one pass over a directory's file names, filtered>).
+    Works on the value, however it was assembled (append loop + list.sort, sorted(generator), helper functions)."""
+    I = fm.I
+    it = fm.norm(L.iter)
+    if isinstance(it, Op) and it.op == "enumerate":
+        it = it.args[0]
+    its = list_items(I, it) if isinstance(it, Ref) else None
+    if not its or len(its) != 1 or its[0][0] != "v" or its[0][2] != TRUE:
+        return None, "it iterates %r, which is not one sorted list" % (it,)
+    sp = fm.norm(its[0][1])
+    if not (isinstance(sp, Op) and sp.op == "splat" and isinstance(sp.args[0], Op) and sp.args[0].op == "sorted"):
+        return None, "the iterated list is not the result of sorted()/list.sort(): %r" % (sp,)
+    srt = sp.args[0]
+    kw = {kv.args[0].v: fm.norm(kv.args[1]) for kv in srt.args[1:]}
+    sit = list_items(I, srt.args[0]) if isinstance(srt.args[0], Ref) else None
+    if not sit or len(sit) != 1 or sit[0][0] != "rep":
+        return None, "what is sorted is not the result of one pass over the directory entries"
+    _, Lf, term, g = sit[0]
+    return dict(kw=kw, Lf=Lf, elem=fm.norm(term), guard=fm.norm(g)), ""
+
+
 def check_filelist(rep, prog, fm, cfg):
-    """every mode gets its candidates from getFileList(path, extension filter, reverse) - analysed per call site"""
+    """every mode iterates sorted(top-level files passing the --extension filter, reverse=--reverse) - decided on the
+    value each mode's per-file loop iterates"""
     rule = "C08.R1.same-candidates"
-    gq = PT + "getFileList"
+    from .c09 import dir_loops, DECODERS
     ext_cfg = cfg_attr(fm, cfg, "extension")
     rev_cfg = cfg_attr(fm, cfg, "rev")
     ev = fm.events
+    dls = dir_loops(fm)
     n = 0
     for fn, dest in MODES.items():
         q = PT + fn
-        calls = [e for e in ev if e.kind == "call" and q in e.stack and e.data[0] == gq]
-        if not rep.check(len(calls) >= 1, rule, "%s takes its candidate files from getFileList" % fn, q, fn,
-                         "%s does not obtain its file list from getFileList: the modes no longer look at the same candidates" % fn):
+        # the per-file loops of the mode: directory loops (by provenance) in which a file is opened / decoded
+        per_file = []
+        for e in ev:
+            if q in e.stack and (e.kind == "open" or (e.kind == "opaquecall" and e.data[0] in DECODERS)):
+                ls = [L for L in e.loops if L in dls]
+                if ls and ls[-1] not in per_file:
+                    per_file.append(ls[-1])
+        if not rep.check(bool(per_file), rule, "%s decodes the files of a directory listing" % fn, q, fn,
+                         "%s has no per-file loop over a directory listing" % fn):
             continue
-        for c in calls:
+        for L in per_file:
             n += 1
-            nxt = min([e.seq for e in ev if e.seq > c.seq and e.kind == "return" and gq in e.stack] or [len(ev)])
-            body = [e for e in ev if c.seq < e.seq <= nxt]
-            apps = [e for e in body if e.kind == "append" and gq in e.stack]
-            sorts = [e for e in body if e.kind == "listmut" and gq in e.stack]
-            walks = [L for L in fm.I.loops.values() if gq in L.stack and L.events[0] > c.seq and L.events[1] <= nxt + 1]
-            ok = len(apps) == 1 and len(apps[0].loops) >= 1
-            why = "appends=%d" % len(apps)
-            if ok:
-                A = apps[0]
-                fname = fm.norm(A.data[1])
-                Lf = A.loops[-1]
-                okn = isinstance(fname, Op) and fname.op == "elem"
-                base = getattr(Lf, "body_guard_full", set())
-                gl = and_(*[c2 for c2 in conj(fm.norm(A.guard)) if c2 not in {fm.norm(b) for b in base}])
-                splitext = Op("getitem", Op("call:os.path.splitext", fname), Const(1))
-                want = not_(and_(pelx_truth(ext_cfg), compare("ne", ext_cfg, splitext)))
-                e1, env = implies(gl, want)
-                e2, env2 = implies(want, gl)
-                ok = okn and e1 and e2
-                why = "file appended under %r, expected: not (extension and extension != splitext(file)[1]) with extension = config.extension" % (gl,)
-            rep.check(ok, rule, "%s: candidates = every top-level file passing the --extension filter" % fn, gq, "file_list.append(file)",
-                      "in %s the candidate list is not 'all files whose extension equals config.extension (when given)': %s" % (fn, why))
-            oks = len(sorts) == 1 and sorts[0].data[1] == "sort"
-            if oks:
-                kw = dict(sorts[0].data[3])
-                rv = fm.norm(kw.get("reverse", Const(False)))
-                if fn == "printPELCount":
-                    oks = True      # order is irrelevant for a count
-                else:
-                    oks = rv == rev_cfg and "key" not in kw
-                why2 = "reverse=%r" % (rv,)
-            else:
-                why2 = "sort calls=%s" % [s.data[1] for s in sorts]
-            rep.check(oks, "C08.R3.order", "%s: file list sorted by name, reversed exactly when --reverse" % fn, gq, "file_list.sort(reverse=rev)",
-                      "in %s the candidate list is not sorted ascending by file name / reversed iff --reverse (%s)" % (fn, why2))
-            top = [L for L in walks if isinstance(fm.norm(L.iter), Op) and fm.norm(L.iter).op == "call:os.walk"]
-            rep.check(all(any(b == TRUE for b in L.breaks) for L in top) and bool(top), rule, "%s: only the top level of the directory is listed" % fn,
-                      gq, "break", "getFileList descends into subdirectories")
-            # iteration of the result in order
-            loops = [L for L in fm.I.loops.values() if q in L.stack and L.events[0] > nxt]
-            it_ok = False
-            for L in loops:
-                it = L.iter
-                if isinstance(it, Ref) and apps and it == apps[0].data[0]:
-                    it_ok = True
-                if isinstance(it, Op) and it.op == "enumerate" and apps and it.args[0] == apps[0].data[0]:
-                    it_ok = True
-            rep.check(it_ok, "C08.R3.order", "%s iterates the sorted list itself (no re-ordering, slicing or de-duplication)" % fn, q, fn,
-                      "%s does not iterate the list returned by getFileList as is" % fn)
-    rep.floor("getFileList call sites", n, 5)
+            src, why = candidate_source(fm, L)
+            if src is None:
+                rep.fail(rule, q, L.node, "in %s the candidate list is not 'all top-level files with the --extension filter, sorted': %s" % (fn, why), node=L.node)
+                continue
+            Lf = src["Lf"]
+            files = fm.norm(Lf.iter)
+            top = isinstance(files, Op) and files.op == "getitem" and files.args[1] == Const(2) and isinstance(files.args[0], Op) and \
+                files.args[0].op == "elem" and isinstance(files.args[0].args[0], Op) and files.args[0].args[0].op == "call:os.walk"
+            first = top and files.args[0].args[1] == Const(0)
+            rep.check(top and first, rule, "%s: only the top level of the directory is listed" % fn, Lf.func, Lf.node,
+                      "the candidates of %s are not the files of the first (top-level) os.walk entry: the listing descends into "
+                      "subdirectories or uses another source (%r)" % (fn, files), node=Lf.node)
+            fname = src["elem"]
+            okn = fname == Op("elem", files, Lf.idx)
+            splitext = Op("getitem", Op("call:os.path.splitext", fname), Const(1))
+            want = not_(and_(pelx_truth(ext_cfg), compare("ne", ext_cfg, splitext)))
+            gl = src["guard"]
+            e1, env = implies(gl, want)
+            e2, env2 = implies(want, gl)
+            rep.check(okn and e1 and e2 and not Lf.stops, rule, "%s: candidates = every top-level file passing the --extension filter" % fn, Lf.func, Lf.node,
+                      "in %s the candidate list is not 'all files whose extension equals config.extension (when given)': file kept under %r, "
+                      "expected: not (extension and extension != splitext(file)[1]) with extension = config.extension" % (fn, gl), node=Lf.node)
+            kw = src["kw"]
+            rv = kw.get("reverse", Const(False))
+            oks = fn == "printPELCount" or (rv == rev_cfg and "key" not in kw)      # order is irrelevant for a count
+            rep.check(oks, "C08.R3.order", "%s: file list sorted by name, reversed exactly when --reverse, and iterated as is" % fn, q, L.node,
+                      "in %s the candidate list is not sorted ascending by file name / reversed iff --reverse (sorted with %s)" % (
+                          fn, {k: repr(v) for k, v in kw.items()}), node=L.node)
+    rep.floor("per-file loops over candidate lists", n, 5)
 
 
 def pelx_truth(t):
